@@ -804,6 +804,9 @@ class WMSGroupLayer(WMSLayerBase):
         self.res_range = merge_layer_res_ranges(all_layers)
 
     def is_opaque(self, query):
+        if self.this:
+            # only the sources of the group itself are rendered (see map_layers_for_query)
+            return self.this.is_opaque(query)
         return any(x.is_opaque(query) for x in self.layers)
 
     @property
